@@ -109,6 +109,9 @@ pub struct Finding {
     pub reader: Option<(Key, Option<Vec<Dep>>)>,
     /// the key the user asked for in this step
     pub root: Option<Key>,
+    /// C03: the re-executed activation was handed this wrong (stale) value
+    /// of a dependency: the extra run is a consequence of that C01 finding
+    pub stale_dep: Option<(Key, Val)>,
 }
 
 /// What one history run produced.
@@ -235,6 +238,7 @@ impl Lockstep {
             got: Some(got),
             reader,
             root,
+            stale_dep: None,
         });
     }
 
@@ -262,6 +266,9 @@ impl Lockstep {
         let mut open: HashMap<usize, (Key, Vec<(Dep, Val)>)> = HashMap::new();
         // previous read lists as they were when each activation started
         let mut prev_at_enter: HashMap<usize, Option<Vec<Dep>>> = HashMap::new();
+        // index (into self.findings) of the "re-executed although ..." finding
+        // of an activation
+        let mut c03_of_act: HashMap<usize, usize> = HashMap::new();
         for e in events {
             match e {
                 Event::Req { .. } | Event::FirstUnwind { .. } => {}
@@ -294,6 +301,7 @@ impl Lockstep {
                                          {prev:?} still has the same value"
                                     );
                                     if self.judge_on {
+                                        c03_of_act.insert(*act, self.findings.len());
                                         self.findings.push(Finding {
                                             property: "C03",
                                             step: self.step,
@@ -330,6 +338,14 @@ impl Lockstep {
                     // --- C01: value handed to an executor ---
                     let want = self.r.eval(&self.p, rig::key_of_dep(*dep));
                     if want != Some(*val) {
+                        if let Some(fi) = c03_of_act.get(act) {
+                            if self.findings[*fi].stale_dep.is_none() {
+                                self.findings[*fi].stale_dep = Some((rig::key_of_dep(*dep), *val));
+                                self.findings[*fi].what.push_str(&format!(
+                                    " (the engine handed it the stale value {val} of {dep:?}: consequence of that wrong value)"
+                                ));
+                            }
+                        }
                         let reader = open.get(act).map(|o| {
                             (o.0, prev_at_enter.get(act).cloned().flatten())
                         });
@@ -1093,6 +1109,22 @@ pub fn snapshots(p: &Program, h: &[Op]) -> (Vec<Ref>, Vec<usize>) {
 pub fn classify(p: &Program, h: &[Op], acts: &[(usize, Key)], f: &Finding) -> Vec<String> {
     let mut tags = Vec::new();
     if f.property == "C03" {
+        // an extra run that was triggered by a stale value is classified like
+        // the stale value itself
+        if let Some((x, v)) = f.stale_dep {
+            let pseudo = Finding {
+                property: "C01",
+                step: f.step,
+                fstep: f.fstep,
+                what: String::new(),
+                key: Some(x),
+                got: Some(v),
+                reader: f.reader.clone(),
+                root: f.root,
+                stale_dep: None,
+            };
+            return classify(p, h, acts, &pseudo);
+        }
         // F10d: a projection re-run by backward projection although the
         // firewall/projection it reads is back at the value it saw
         if let (Some(k @ Key::C(j)), Some((_, Some(deps)))) = (f.key, &f.reader) {
